@@ -17,23 +17,40 @@ LaneWordsOf(ln) == LET bs == Pad9(ChipBytes(ln.shape, ln.chip, ln.bc)) IN
 RECURSIVE FlatS(_)
 FlatS(ss) == IF ss = << >> THEN << >> ELSE Head(ss) \o FlatS(Tail(ss))
 
-\* inner-barrel frame variants: which lanes, which chip ids, which bunch counters
-LaneSets == { <<3, 4, 5>>, <<0, 1, 2>>, <<6, 7, 8>>, <<3, 4>>, <<3, 4, 5, 6>>, <<2, 3, 4>>, <<0, 4, 8>>, <<5, 4, 3>> }
-Cases == [lanes : LaneSets, badChip : {0, 1, 2}, bcs : {<<17, 17>>, <<17, 200>>, <<0, 0>>, <<0, 17>>}, shape : Shapes]
-\* lane i gets chip id = lane unless badChip = i (then lane+1); bunch counter bcs[1] except the last lane gets bcs[2]
+\* frame variants: which barrel, which lanes (data word ids minus the barrel's base), which chip ids, which bunch counters
+\* inner barrel: lane numbers; lane i gets chip id = lane unless badChip = i (then lane+1)
+IbLaneSets == { <<3, 4, 5>>, <<0, 1, 2>>, <<6, 7, 8>>, <<3, 4>>, <<3, 4, 5, 6>>, <<2, 3, 4>>, <<0, 4, 8>>, <<5, 4, 3>> }
+\* middle / outer barrel: data word ids; each lane carries chips 0..6; badChip = i: chip 3 of lane i has another bunch counter
+MlIdsLegal == << 67, 68, 69, 70, 72, 73, 74, 75 >>
+OlIdsLegal == << 64, 65, 66, 67, 68, 69, 70, 72, 73, 74, 75, 76, 77, 78 >>
+ObLaneSets(legal) == { legal, SubSeq(legal, 1, Len(legal) - 1), SubSeq(legal, 2, Len(legal)), legal \o << 80 >>,
+                       [i \in 1..Len(legal) |-> legal[Len(legal) + 1 - i]] }
+BcPairs == {<<17, 17>>, <<17, 200>>, <<0, 0>>, <<0, 17>>}
+Cases == [barrel : {"IB"}, lanes : IbLaneSets, badChip : {0, 1, 2}, bcs : BcPairs, shape : Shapes]
+         \cup [barrel : {"ML"}, lanes : ObLaneSets(MlIdsLegal), badChip : {0, 2}, bcs : BcPairs, shape : {"E", "Z"}]
+         \cup [barrel : {"OL"}, lanes : ObLaneSets(OlIdsLegal), badChip : {0, 2}, bcs : BcPairs, shape : {"E", "Z"}]
+\* bunch counter bcs[1] except the last lane gets bcs[2]
+ObChipBytes(x, i) == FlatS([k \in 1..7 |-> ChipBytes(IF i = 1 /\ k = 1 THEN x.shape ELSE "E", k - 1,
+                                                     IF x.badChip = i /\ k = 4 THEN (x.bcs[1] + 1) % 256
+                                                     ELSE IF i = Len(x.lanes) THEN x.bcs[2] ELSE x.bcs[1])])
 LanesOf(x) == [i \in 1..Len(x.lanes) |-> [id |-> 32 + x.lanes[i],
                                            chip |-> IF x.badChip = i THEN (x.lanes[i] + 1) % 16 ELSE x.lanes[i],
                                            bc |-> IF i = Len(x.lanes) THEN x.bcs[2] ELSE x.bcs[1],
                                            shape |-> IF i = 1 THEN x.shape ELSE "E"]]
+ObLaneWords(x, i) == LET bs == Pad9(ObChipBytes(x, i)) IN
+                     [k \in 1..(Len(bs) \div 9) |-> SubSeq(bs, 9 * (k - 1) + 1, 9 * k) \o << x.lanes[i] >>]
 \* ---- the declarative rule (C13) ----
-FrameOK(x) == /\ {x.lanes[i] : i \in 1..Len(x.lanes)} \in IbGroups /\ Len(x.lanes) = 3
+SetOf(q) == {q[i] : i \in 1..Len(q)}
+FrameOK(x) == /\ IF x.barrel = "IB" THEN SetOf(x.lanes) \in IbGroups /\ Len(x.lanes) = 3
+                 ELSE Len(x.lanes) = ExpectLanes(x.barrel)                       \* 8 middle, 14 outer; any lane ids (no grouping rule outside the inner barrel)
               /\ x.bcs[1] = x.bcs[2]
               /\ x.badChip = 0 \/ x.badChip > Len(x.lanes)
 \* ---- the decoder-based verdict ----
-Words(x) == FlatS([i \in 1..Len(x.lanes) |-> LaneWordsOf(LanesOf(x)[i])])
+Words(x) == IF x.barrel = "IB" THEN FlatS([i \in 1..Len(x.lanes) |-> LaneWordsOf(LanesOf(x)[i])])
+            ELSE FlatS([i \in 1..Len(x.lanes) |-> ObLaneWords(x, i)])
 RECURSIVE Store(_, _)
 Store(lanes, ws) == IF ws = << >> THEN lanes ELSE Store(StoreLane(lanes, Head(ws)), Tail(ws))
-Verdict(x) == FrameResult([FrInit EXCEPT !.has = TRUE, !.start = 74, !.lanes = Store(<< >>, Words(x))], "IB")
+Verdict(x) == FrameResult([FrInit EXCEPT !.has = TRUE, !.start = 74, !.lanes = Store(<< >>, Words(x))], x.barrel)
 
 Init == c \in Cases
 Next == UNCHANGED c
@@ -42,10 +59,11 @@ Agree == LET v == Verdict(c) IN ~v.panic /\ ((v.errs = << >>) <=> FrameOK(c))
 HitIndependent == \A s \in Shapes : Verdict([c EXCEPT !.shape = s]).errs = Verdict(c).errs
 
 \* one-frame stream: page 0 (IHW, TDH, data words, TDT) + stop page (DDW0)
-LaneMask == LET S == {c.lanes[i] : i \in 1..Len(c.lanes)} IN
-            LET RECURSIVE Sum(_) Sum(T) == IF T = {} THEN 0 ELSE LET y == CHOOSE y \in T : TRUE IN Pow2(y) + Sum(T \ {y}) IN Sum(S)
+LaneNos == IF c.barrel = "IB" THEN SetOf(c.lanes) ELSE {ObLane(c.lanes[i]) : i \in 1..Len(c.lanes)}
+LaneMask == LET RECURSIVE Sum(_) Sum(T) == IF T = {} THEN 0 ELSE LET y == CHOOSE y \in T : TRUE IN Pow2(y) + Sum(T \ {y}) IN Sum(LaneNos)
+FeeOfCase == CASE c.barrel = "IB" -> 4096 + 7 [] c.barrel = "ML" -> 3 * 4096 + 256 + 9 [] c.barrel = "OL" -> 6 * 4096 + 512 + 47
 Pkt(words, page, stop) == LET pl == Encode(2, words, (16 - ((10 * Len(words)) % 16)) % 16) IN
-   MkRdh([ver |-> 7, fee |-> 4096 + 7, sys |-> 32, size |-> 64 + Len(pl), link |-> 3, pkt |-> page, bc |-> 5, orbit |-> 1001, df |-> 2,
+   MkRdh([ver |-> 7, fee |-> FeeOfCase, sys |-> 32, size |-> 64 + Len(pl), link |-> 3, pkt |-> page, bc |-> 5, orbit |-> 1001, df |-> 2,
           tt |-> 27139, page |-> page, stop |-> stop, det |-> 0]) \o pl
 Stream == << Pkt(<< MkIhw(LaneMask), MkTdh(2563, 1, 0, 0, 5, 1001) >> \o Words(c) \o << MkTdt(1) >>, 0, 0), Pkt(<< MkDdw0 >>, 1, 1) >>
 Emit == PrintT("FRAME " \o ToJson([ok |-> FrameOK(c), errs |-> Verdict(c).errs, pk |-> Stream]))
